@@ -48,6 +48,8 @@ def replay(ctx, cases, concs=3, expand=3, tag="", jail=False, block=False, goarc
     binary = os.path.join(bindir, "polreplay")
     if goarch:
         binary = ctx.harness_for(goarch, "polreplay")
+        if binary is None:
+            return None, []
         extra = [x for x in extra if x != "-blockseccomp"]
     rc, out, err = ctx.run([binary, "-in", cases, "-failures", fails, "-summary", summ,
                             "-seed", str(ctx.seed), "-concs", str(concs), "-expand", str(expand)] + extra, timeout=3000)
@@ -129,4 +131,5 @@ def run_family(ctx, plan, mine, decision_owner):
             for x in f:
                 x["build_target"] = "linux/386"
                 x["why"] = "(harness built for linux/386) " + x["why"]
-            account(ctx, s, f, mine, decision_owner)
+            if s is not None:
+                account(ctx, s, f, mine, decision_owner)
